@@ -64,6 +64,55 @@ pub fn rebuild<S: Sut>(uni: &Universe, hist: &[Op], key_opts: KeyOpts) -> Option
     Some(st)
 }
 
+/// execute a fixed history with the per-transition oracle on every step and the given observers
+/// on the final state (and on the state after every `obs_every`-th step)
+pub fn run_history_checked<S: Sut>(uni: &Universe, hist: &[Op], observers: &[(&'static str, Observer<S>)], obs_every: usize) -> (Vec<(Viol, usize, String)>, u64, u64) {
+    let key_opts = KeyOpts { reps: false, layout: false, no_free: false };
+    let cx = Cx { uni, canonical: false, deep: false };
+    let mut st: St<S> = initial(uni, key_opts);
+    let mut out: Vec<(Viol, usize, String)> = vec![];
+    let (mut transitions, mut evals) = (0u64, 0u64);
+    for (i, op) in hist.iter().enumerate() {
+        let mut map = st.map.clone();
+        let mut model = st.model.clone();
+        let tok = (st.depth + 1) * 1000;
+        let r = guarded(|| {
+            let mut vs = map.apply(&mut model, &st.walk, *op, tok, &cx);
+            let (mut vs2, wk) = post_check(&map, &model, &st, *op, uni, key_opts);
+            vs.append(&mut vs2);
+            (vs, wk)
+        });
+        transitions += 1;
+        match r {
+            Err(msg) => {
+                out.push((Viol::new("C20", format!("{:?}", op.kind), "panic", format!("{} panicked: {msg}", op.describe(uni))), i + 1, "transition".into()));
+                return (out, transitions, evals);
+            }
+            Ok((vs, wk)) => {
+                for v in vs {
+                    out.push((v, i + 1, "transition".into()));
+                }
+                let Some((w, key)) = wk else { return (out, transitions, evals) };
+                st = St { map, model, walk: w, key, depth: st.depth + 1, hist: None, taint: 0 };
+            }
+        }
+        if i + 1 == hist.len() || (obs_every > 0 && (i + 1) % obs_every == 0) {
+            for (name, f) in observers {
+                match guarded(|| f(&st, &cx)) {
+                    Ok((vs, n)) => {
+                        evals += n;
+                        for v in vs {
+                            out.push((v, i + 1, format!("observer:{name}")));
+                        }
+                    }
+                    Err(msg) => out.push((Viol::new("C20", format!("observer:{name}"), "panic", msg), i + 1, format!("observer:{name}"))),
+                }
+            }
+        }
+    }
+    (out, transitions, evals)
+}
+
 pub fn ops_from_json(v: &Value) -> Vec<Op> {
     v.as_array().map(|a| a.iter().map(op_from_json).collect()).unwrap_or_default()
 }
